@@ -97,6 +97,39 @@ def build(ctx, crate, E):
         first = src[0] if src else "?"
         if first not in ("last", "last_mut"):
             bad.append((fa.loc(b, i), first, chain[:5]))
+    # the same read inside the closure of an Option combinator
+    # (`..find(..).filter(..).map(|edge| edge.target)`): the edge is the closure's parameter, its
+    # source is the receiver chain of the combinator in add_rule
+    SEL = ("next", "last", "last_mut", "get", "index", "find", "position", "rev", "nth", "first", "find_map",
+           "rfind", "rposition", "max_by", "min_by", "max_by_key", "min_by_key", "skip", "nth_back")
+    for b0, i0, s0 in fa.stmts():
+        rv0 = s0.get("rv") or {}
+        if rv0.get("k") != "agg" or rv0.get("agg") != "closure" or rv0.get("closure") not in crate.fns:
+            continue
+        cfa = E.fa(rv0["closure"])
+        reads = []
+        for cb, ci, cs in cfa.stmts():
+            crv = cs.get("rv")
+            cpl = op_place(crv["op"]) if crv and crv["k"] == "use" else None
+            if cpl is not None and cpl["p"] and isinstance(cpl["p"][-1], dict) and cpl["p"][-1].get("n") == "target" \
+                    and str(cpl["p"][-1].get("o", "")).endswith("::Edge"):
+                ap = E.ap_place(cfa, cpl)
+                if ap is not None and ap.root == ("arg", 2):
+                    reads.append(cfa.loc(cb, ci))
+        if not reads:
+            continue
+        # the call in add_rule this closure is handed to
+        for ub, ut in fa.calls():
+            if len(ut["args"]) >= 2 and E.closure_of_operand(fa, ut["args"][-1]) and \
+                    E.closure_of_operand(fa, ut["args"][-1])[0] == rv0["closure"]:
+                n += 1
+                chain = _chain_to_source(fa, ut["args"][0])
+                src = [c for c in chain if c in SEL]
+                first = src[0] if src else "?"
+                if first not in ("last", "last_mut"):
+                    bad.append((reads[0], first, chain[:6]))
+    if n == 0:
+        raise EngineError("FIRSTMATCH-BUILD: no read of an existing edge's target found in add_rule")
     ok = not bad
     ctx.ob("FIRSTMATCH-BUILD", "%s|reuse-only-the-newest-edge" % P_ADD, ok, _loc(crate, p),
            "add_rule follows an existing edge only when it is the last action of the node (%d "
